@@ -82,7 +82,7 @@ SUFFIXES = {'table': ['.txt', '.TXT', '.Txt'],
             'csv': ['.csv', '.Csv', '.CSV'],
             'python-literal': ['.py', '.PY', '.Py']}
 
-LINE_BREAKS = '\n\r\x0b\x0c\x1c\x1d\x1e\x85\u2028\u2029'
+LINE_BREAKS = '\n\r'      # what the '\n'-based parsers treat as a line break (VT, FF, FS.., NEL, LS, PS inside a label are representable: they round-trip)
 
 
 def representable(label, frmat):
